@@ -46,6 +46,7 @@ def run(ctx):
         # per-solve bookkeeping is consulted, not the persistent cache, when deciding what still has to be encoded
         import c09
         ctx.guard("new-solvables" + tag, c09.new_solvables, ctx, crate, crs, tag)
+        ctx.guard("cache-persists" + tag, cache_is_created_once, ctx, crate, crs, tag)
         # a Cancelled outcome must not leave a wrong answer behind in the persistent cache: the cancellation error of a
         # sub-query is propagated, never turned into an (empty) list that is then stored (rule of C12, cache only)
         import core
@@ -128,6 +129,41 @@ def field_writes(ctx, crate, tag):
     if a:
         names = [f["name"] for f in a["variants"][0]["fields"]]
         ctx.notes.append("Solver fields: %s" % names)
+
+
+def cache_is_created_once(ctx, crate, crs, tag):
+    """The memo tables live as long as the solver: SolverCache::new is called where a Solver (or a snapshot capture) is created and
+    nowhere else, and a builder that rebuilds the Solver by value (`with_runtime`) carries `self.cache` over unchanged (seed
+    C13-17: with_runtime rebuilt the cache around the provider - everything is requested again by the next solve)."""
+    import mech
+    R = "cache-persists" + tag
+    mech.callers_exact(ctx, "cache-persists", crate, CACHE + "new",
+                       {SOLVER + "new", "resolvo::snapshot::DependencySnapshot::from_provider_async"}, tag, 1)
+    n = 0
+    for b in crate.bodies:
+        if not b.key.startswith(SOLVER) or b.kind not in ("Fn", "AssocFn"):
+            continue
+        sig = b.d.get("sig") or {}
+        ins = sig.get("inputs") or []
+        if not ins or not ins[0].startswith(SOLVER_ADT) or not str(sig.get("output", "")).startswith(SOLVER_ADT):
+            continue
+        for i, j, s_ in b.assigns():
+            r = s_["r"]
+            if r["k"] != "agg" or r.get("adt") != SOLVER_ADT:
+                continue
+            a = crate.adts.get(SOLVER_ADT)
+            names = [f["name"] for f in a["variants"][0]["fields"]]
+            for fi, o in enumerate(r["ops"]):
+                fname = (r["fields"][fi] if r.get("fields") else names[fi])
+                fname = names[int(fname)] if str(fname).isdigit() else fname
+                if fname != "cache":
+                    continue
+                n += 1
+                d = b.origin(o)
+                kept = d.get("k") == "arg" and d.get("l") == 1 and [e.get("n") for e in d.get("proj", []) if isinstance(e, dict) and "f" in e] == ["cache"]
+                ctx.ob(R, b.key, "builder-keeps-the-cache", kept, b.loc(),
+                       "the Solver returned by this builder holds self.cache itself (what earlier solves fetched is not requested again)")
+    ctx.floor(R, "by-value builders of Solver", n, 1)
 
 
 def solve_is_exclusive(ctx, crate, tag):
